@@ -104,6 +104,11 @@ Section Spec.
       destruct g; cbn [fst]; exact G.
   Qed.
 
+  Lemma same4_mutate s l : same4 s (fst (mutate sc s l)).
+  Proof.
+    split; [apply mutate_cl|]. split; [apply mutate_tbl|]. split; [apply mutate_aband|apply mutate_tr].
+  Qed.
+
   Lemma mc_cl s i : r_cl (maybe_cancel sc s i) = r_cl s.
   Proof. apply (same4_maybe_cancel s i). Qed.
   Lemma mc_tbl s i : r_tbl (maybe_cancel sc s i) = r_tbl s.
@@ -401,16 +406,21 @@ Section Spec.
     pose proof (same4_policy_apply_filter s (p_id p)) as P.
     destruct (policy_apply_filter sc s (p_id p)) as [s1 f1]. cbn [fst] in P. destruct P as [P1 [P2 [P3 P4]]].
     destruct (match f1 with FPass => _ | _ => _ end).
-    - (* passes the filters *)
-      pose proof (kubectl_apply_spec s1 l) as K. unfold ka_spec2 in K.
-      destruct (kubectl_apply sc s1 l) as [s2 r]. cbn [fst snd] in K.
-      destruct K as [K1 [K2 [lt [K3 [K4 K5]]]]]. rewrite P1 in K4.
+    - (* passes the filters; the source lookups of the mutator touch none of the four components *)
+      pose proof (same4_mutate s1 l) as M.
+      destruct (mutate sc s1 l) as [sm okm]. cbn [fst] in M. destruct M as [M1 [M2 [M3 M4]]].
+      destruct okm; cbn [negb].
+      2:{ leaf. split; [congruence|]. exists AFailed, 0%N, 0%Z, []. rewrite M1, M2, M4, P1, P2, P4.
+          split; [reflexivity|]. split; [reflexivity|]. split; [constructor|]. left. split; [left; reflexivity|reflexivity]. }
+      pose proof (kubectl_apply_spec sm l) as K. unfold ka_spec2 in K.
+      destruct (kubectl_apply sc sm l) as [s2 r]. cbn [fst snd] in K.
+      destruct K as [K1 [K2 [lt [K3 [K4 K5]]]]]. rewrite M1, P1 in K4.
       destruct r as [u|]; leaf.
       + split; [congruence|]. exists ASucceeded, u, harness_gen, lt.
-        split; [rewrite K1, P2; reflexivity|]. split; [rewrite K3, P4; reflexivity|]. split; [exact K4|].
-        rewrite <- EI, <- P1. destruct K5 as [[D C]|[D C]]; [right; left|right; right]; auto.
+        split; [rewrite K1, M2, P2; reflexivity|]. split; [rewrite K3, M4, P4; reflexivity|]. split; [exact K4|].
+        rewrite <- EI, <- P1, <- M1. destruct K5 as [[D C]|[D C]]; [right; left|right; right]; auto.
       + split; [congruence|]. exists AFailed, 0%N, 0%Z, lt.
-        split; [rewrite K1, P2; reflexivity|]. split; [rewrite K3, P4; reflexivity|]. split; [exact K4|].
+        split; [rewrite K1, M2, P2; reflexivity|]. split; [rewrite K3, M4, P4; reflexivity|]. split; [exact K4|].
         left. split; [left; reflexivity|congruence].
     - leaf. split; [exact P3|]. exists ASkipped, 0%N, 0%Z, []. rewrite P1, P2, P4.
       split; [reflexivity|]. split; [reflexivity|]. split; [constructor|]. left. split; [right; reflexivity|reflexivity].
@@ -797,18 +807,41 @@ Section Spec.
   Qed.
   Lemma cache_kubectl_apply s l : r_cache (fst (kubectl_apply sc s l)) = r_cache s.
   Proof. apply (kubectl_apply_keeps sc l r_cache (cache_ssa_patch l) (cache_csa_apply l)). Qed.
-  Lemma cache_apply_one pl g s p : r_cache (apply_one sc pl g s p) = r_cache s.
+  (* the apply of one object leaves in the cache what the source lookups of its mutator Put there: entries
+     about sources of a mutation-spelled manifest that passed the dependency filter *)
+  Lemma cache_apply_one pl g s p :
+    exists ex, r_cache (apply_one sc pl g s p) = ex ++ r_cache s /\
+      forall o, In o ex -> exists l, p_local p = Some l /\ l_mut l = true /\ In (s_id o) (l_deps l) /\
+        mut_entry (r_cl s) o /\
+        dep_filter sc pl (r_tbl s) SApply (g_deps (pl_graph pl) (p_id p)) = FPass.
   Proof.
-    unfold apply_one. destruct (p_local p) as [l|]; [|reflexivity].
-    destruct (negb (kind_known sc (r_known s) (p_id p))); [reflexivity|].
-    pose proof (cache_policy_apply_filter s (p_id p)) as P.
-    destruct (policy_apply_filter sc s (p_id p)) as [s1 f1]. cbn [fst] in P.
-    destruct (match f1 with FPass => _ | _ => _ end).
-    - pose proof (cache_kubectl_apply s1 l) as K. destruct (kubectl_apply sc s1 l) as [s2 r]. cbn [fst] in K.
-      destruct r; cbn [rec_add set_tbl ev emit r_cache]; congruence.
-    - cbn [rec_add set_tbl ev emit r_cache]. exact P.
-    - cbn [rec_add set_tbl ev emit r_cache]. exact P.
+    assert (NIL : forall s', r_cache s' = r_cache s ->
+              exists ex, r_cache s' = ex ++ r_cache s /\
+                forall o, In o ex -> exists l, p_local p = Some l /\ l_mut l = true /\ In (s_id o) (l_deps l) /\
+                  mut_entry (r_cl s) o /\ dep_filter sc pl (r_tbl s) SApply (g_deps (pl_graph pl) (p_id p)) = FPass)
+      by (intros s' E; exists []; split; [exact E|intros o []]).
+    unfold apply_one. destruct (p_local p) as [l|]; [|apply NIL; reflexivity].
+    destruct (negb (kind_known sc (r_known s) (p_id p))); [apply NIL; reflexivity|].
+    pose proof (cache_policy_apply_filter s (p_id p)) as P. pose proof (same4_policy_apply_filter s (p_id p)) as [P1 [P2 _]].
+    destruct (policy_apply_filter sc s (p_id p)) as [s1 f1]. cbn [fst] in P, P1, P2.
+    destruct (match f1 with FPass => _ | _ => _ end) eqn:EF.
+    - assert (DF : dep_filter sc pl (r_tbl s) SApply (g_deps (pl_graph pl) (p_id p)) = FPass)
+        by (rewrite <- P2; destruct f1; try discriminate; exact EF).
+      destruct (mutate_cache sc s1 l) as [ex [EC HX]].
+      destruct (mutate sc s1 l) as [sm okm]. cbn [fst] in EC.
+      assert (G : forall s', r_cache s' = r_cache sm ->
+                exists ex0, r_cache s' = ex0 ++ r_cache s /\
+                  forall o, In o ex0 -> exists l0, Some l = Some l0 /\ l_mut l0 = true /\ In (s_id o) (l_deps l0) /\
+                    mut_entry (r_cl s) o /\ dep_filter sc pl (r_tbl s) SApply (g_deps (pl_graph pl) (p_id p)) = FPass).
+      { intros s' E. exists ex. split; [rewrite E, EC, P; reflexivity|].
+        intros o Ho. destruct (HX o Ho) as [A [B C]]. rewrite P1 in C. exists l. auto. }
+      destruct okm; cbn [negb]; [|apply G; reflexivity].
+      pose proof (cache_kubectl_apply sm l) as K. destruct (kubectl_apply sc sm l) as [s2 r]. cbn [fst] in K.
+      destruct r; apply G; cbn [rec_add set_tbl ev emit r_cache]; exact K.
+    - apply NIL. cbn [rec_add set_tbl ev emit r_cache]. exact P.
+    - apply NIL. cbn [rec_add set_tbl ev emit r_cache]. exact P.
   Qed.
+
   Lemma cache_prune_one pl locals g uids s p : r_cache (prune_one sc pl locals g uids s p) = r_cache s.
   Proof.
     unfold prune_one. destruct (p_live p) as [c|]; [|reflexivity].
